@@ -278,7 +278,7 @@ def run(ctx):
         "heap safety is observed, not proved: every case must run to completion in the dev-profile process (debug assertions abort on Box::from_raw(null) and invalid from_raw_parts); a sample (450 cases quick, 3600 thorough) additionally runs under valgrind (invalid free/read, definite leaks) when valgrind works on the binary",
         "the executor reads the returned pointers through its own repr(C) mirror declarations (field order and types of the unchanged tree's dovi.h); `capi.layout` compares the mirror sizes with the crate's struct sizes",
         "free_once assumes no component carries both a polynomial and an MMR curve (the parser rejects mixed components since 324e2a5); the model driver evaluates this hypothesis on every parsed case and flags a violation",
-        "the state a failed dovi_convert_rpu_with_mode / set_active_area_offsets leaves behind is compared C vs Rust (exactly) but not modelled: the model answers `operr i` from the first failing operation on",
+        "capi.seq: the model answers `operr i` from the first failing operation on; the state a failed operation leaves behind is modelled (Model/Ops.lean afterFailedConvert / afterFailedOffsets) and compared, with the getters' views after the whole sequence, by capi.seqview / rpu.ops3json",
         "inputs on which the Rust entry point panics inside third-party code are C08's known findings and are not fed to the extern \"C\" wrappers here",
     ]
     ctx.build_and_audit()
@@ -479,6 +479,74 @@ def run(ctx):
             ctx.disagree("capi.seq", l[:3000], m[:1500], c[:1500])
 
     # ---------------------------------------------------------------------------------------------
+    # (c2): the getters' view AFTER a call sequence, failed operations included (the handle keeps its RPU and
+    # records the error; the getters must still present exactly the Rust value), with writer calls in between
+    # ---------------------------------------------------------------------------------------------
+    nsv = 1500 if quick else 12000
+    sv_args = []
+    for i in range(nsv):
+        b = parsed[(7 * i) % len(parsed)]
+        ops = gen_ops(rng)
+        if rng.chance(1, 3) and ops != "-":
+            lst = ops.split(";")
+            lst.insert(rng.below(len(lst) + 1), "write")
+            ops = ";".join(lst)
+        sv_args.append("%s %s" % (hx(b), ops))
+    for b in assets:
+        # every mode alone (most fail on some profile), the partial state of a failed MEL conversion, a rejected
+        # offset followed by a failing writer
+        for mode in range(0, 7):
+            sv_args.append("%s mode:%d" % (hx(b), mode))
+        sv_args.append("%s rmmap;mode:1" % hx(b))
+        sv_args.append("%s rmmap;mode:1;mode:2" % hx(b))
+        sv_args.append("%s offs:9000,0,0,0;write" % hx(b))
+        sv_args.append("%s offs:9000,0,0,0;write;mode:2;write" % hx(b))
+    cl = ["capi.seqview " + a for a in sv_args]
+    rl = ["rpu.ops3json " + a for a in sv_args]
+    ro = common.run_lines_resilient_sharded(common.LIBCASE, rl, env=ENV)
+    keep = [i for i, o in enumerate(ro) if o.startswith("ok ")]
+    for i, o in enumerate(ro):
+        if not o.startswith("ok "):
+            ctx.count("seqview filtered: Rust side says %s" % o.split(" ")[0].split(":")[0])
+    cl, rl, ro, sv_args = [cl[i] for i in keep], [rl[i] for i in keep], [ro[i] for i in keep], [sv_args[i] for i in keep]
+    co = common.run_lines_resilient_sharded(common.LIBCASE, cl, env=ENV)
+    have_model = os.path.exists(common.MODEL_EXE)
+    mc, _, _ = common.run_lines_sharded(common.MODEL_EXE, cl) if have_model else (["model-missing"] * len(cl), 0, "")
+    mr, _, _ = common.run_lines_sharded(common.MODEL_EXE, rl) if have_model else (["model-missing"] * len(rl), 0, "")
+    ctx.evaluations += len(cl)
+    for a, lc, lr, c, r, m1, m2 in zip(sv_args, cl, rl, co, ro, mc, mr):
+        if c == "not-run":
+            continue
+        if c in ("abort", "timeout") or c.startswith("panic"):
+            ctx.oracle_fail({"op": "capi.seqview", "input": a[:6000], "observed": c, "expected": r[:300],
+                             "shape": "abort" if c == "abort" else c.split(":")[0]})
+            continue
+        # (a) model, both sides (post-failure state: Model/Ops.lean afterFailedConvert / afterFailedOffsets)
+        if rpucases.canon_json_line(m1) != rpucases.canon_json_line(c):
+            ctx.disagree("capi.seqview", lc[:3000], m1[:1500], c[:1500])
+        if rpucases.canon_json_line(m2) != rpucases.canon_json_line(r):
+            ctx.disagree("rpu.ops3json", lr[:3000], m2[:1500], r[:1500])
+        # (b) direct oracle: same return codes, error recorded iff an operation failed, same data
+        pc, pr = c.split(" ", 3), r.split(" ", 3)
+        failed = "-1" in pr[1].split(",")
+        ctx.count("seqview: %s" % ("an op failed" if failed else "all ops ok"))
+        if len(pc) < 4 or pc[:3] != pr[:3]:
+            ctx.oracle_fail({"op": "capi.seqview", "input": a[:6000], "observed": " ".join(pc[:3]) + " " + (pc[3][:80] if len(pc) > 3 else ""),
+                             "expected": "return codes and error flag of the Rust API: " + " ".join(pr[:3]), "shape": "seqview-rcs"})
+            continue
+        try:
+            cv, rj = json.loads(pc[3]), json.loads(pr[3])
+        except ValueError:
+            ctx.oracle_fail({"op": "capi.seqview", "input": a[:6000], "observed": pc[3][:300],
+                             "expected": "the three getters return the RPU's data after the sequence", "shape": "getters-after-sequence"})
+            continue
+        diffs = compare_view(cv, rj)
+        if diffs:
+            ctx.oracle_fail({"op": "capi.seqview", "input": a[:6000], "observed": diffs[:6],
+                             "expected": "every C field equals the Rust field after the same call sequence", "shape": "field-mismatch-after-sequence"})
+        ctx.nontriv(lc)
+
+    # ---------------------------------------------------------------------------------------------
     # (d) a sample under valgrind (small in the quick tier)
     # ---------------------------------------------------------------------------------------------
     if valgrind_usable():
@@ -520,6 +588,8 @@ def replay(ctx, path):
         lines = ["capi.view %s %s" % (entry, inp), "%s.json %s" % (entry, inp)]
     elif op == "capi.seq":
         lines = ["capi.seq " + inp, "rpu.ops3 " + inp]
+    elif op in ("capi.seqview", "rpu.ops3json"):
+        lines = ["capi.seqview " + inp, "rpu.ops3json " + inp]
     else:
         print("nothing to replay for op %r" % op)
         return 2
@@ -529,6 +599,17 @@ def replay(ctx, path):
         print("  -> " + o[:2000])
     if op == "capi.seq":
         return 0 if len(out) == 2 and out[0] == out[1] else 1
+    if op in ("capi.seqview", "rpu.ops3json"):
+        pc, pr = out[0].split(" ", 3), out[1].split(" ", 3)
+        if len(pc) < 4 or len(pr) < 4 or pc[:3] != pr[:3]:
+            return 1
+        try:
+            diffs = compare_view(json.loads(pc[3]), json.loads(pr[3]))
+        except ValueError:
+            return 1
+        for x in diffs:
+            print("  DIFF " + str(x))
+        return 1 if diffs else 0
     if len(out) == 2 and out[0].startswith("ok {") and out[1].startswith("ok {"):
         diffs = compare_view(json.loads(out[0][3:]), json.loads(out[1][3:]))
         for x in diffs:
